@@ -53,7 +53,8 @@ def options(rng, lang_doc):
     return dict(
         lang=rng.choice(['en-GB', 'de-DE', 'ru-RU', 'en', 'de', '']),
         pack=rng.choice(['*', '*', '*', '', 'amsmath,babel', '*,xspace']),
-        dcls=rng.choice(['', '', '', 'article', 'scrartcl']),
+        dcls=rng.choice(['', '', '', 'article', 'scrartcl', 'book', 'report', 'scrbook',
+                         'scrreprt']),
         seqs=rng.random() < 0.15, nosp=rng.random() < 0.07, multi=multi,
         defs=rng.choice(['', '', '', '\\newcommand{\\dd}[1]{D#1}\n',
                          '\\usepackage{babel}\\selectlanguage{german}\n'
